@@ -247,7 +247,16 @@ func checkC20(r *core.Result) {
 				return true
 			}
 			if ac, ok := as.Rhs[0].(*ast.CallExpr); ok && types.ExprString(ac.Fun) == "append" && len(ac.Args) == 2 {
-				a0, ok0 := ac.Args[0].(*ast.Ident)
+				// the parent path, possibly clipped to its length first (parent[:len(parent):len(parent)], a defensive copy)
+				base := ast.Unparen(ac.Args[0])
+				for {
+					se, ok := base.(*ast.SliceExpr)
+					if !ok || se.Low != nil {
+						break
+					}
+					base = ast.Unparen(se.X)
+				}
+				a0, ok0 := base.(*ast.Ident)
 				a1, ok1 := ac.Args[1].(*ast.Ident)
 				if ok0 && ok1 {
 					// a0 is the parent path parameter, a1 the tag from DecodeTag
